@@ -143,7 +143,26 @@ func (s *ssTicketStore) serialize() error {
 	if err != nil {
 		return err
 	}
-	return os.WriteFile(s.filePath, jsonStr, 0o600)
+
+	// Write to a temporary file and rename it into place, so that a crash
+	// mid-write can not leave a truncated ticket store behind (which would
+	// prevent the client factory from being created).
+	tmpPath := s.filePath + ".tmp"
+	f, err := os.OpenFile(tmpPath, os.O_WRONLY|os.O_CREATE|os.O_TRUNC, 0o600)
+	if err != nil {
+		return err
+	}
+	if _, err = f.Write(jsonStr); err == nil {
+		err = f.Sync()
+	}
+	if cerr := f.Close(); err == nil {
+		err = cerr
+	}
+	if err != nil {
+		_ = os.Remove(tmpPath)
+		return err
+	}
+	return os.Rename(tmpPath, s.filePath)
 }
 
 func loadTicketStore(stateDir string) (*ssTicketStore, error) {
